@@ -904,3 +904,190 @@ pub fn corpus_values(prop: Prop, extra_generated: usize, base: u64) -> Vec<Value
 pub fn count_kind(stats: &Stats) -> u64 {
     stats.get(C::runs)
 }
+
+// ------------------------------------------------------------------------------------------------
+// Process-level reproduction: for state the code under test shares between threads, a fresh
+// thread is not a fresh start - only a fresh process is.
+
+#[derive(serde::Serialize, serde::Deserialize)]
+pub struct HistoryFile {
+    pub class: String,
+    pub history: Vec<Plan>,
+    pub plan: Plan,
+}
+
+static CHILD_SEQ: AtomicU64 = AtomicU64::new(0);
+
+fn temp_path(tag: &str) -> std::path::PathBuf {
+    let n = CHILD_SEQ.fetch_add(1, Ordering::Relaxed);
+    std::env::temp_dir().join(format!("semver-dst-{}-{}-{}.json", std::process::id(), tag, n))
+}
+
+/// Execute `prior` then `last` on the main thread of a fresh process; does `last` show `class`?
+pub fn history_fails_in_child(prior: &[Plan], last: &Plan, class: &str) -> bool {
+    let path = temp_path("hist");
+    let hf = HistoryFile { class: class.to_string(), history: prior.to_vec(), plan: last.clone() };
+    if std::fs::write(&path, serde_json::to_vec(&hf).unwrap()).is_err() {
+        return false;
+    }
+    let exe = match std::env::current_exe() {
+        Ok(e) => e,
+        Err(_) => return false,
+    };
+    let st = std::process::Command::new(exe)
+        .arg("exec-history")
+        .arg("--replay")
+        .arg(&path)
+        .stdout(std::process::Stdio::null())
+        .stderr(std::process::Stdio::null())
+        .status();
+    let _ = std::fs::remove_file(&path);
+    matches!(st.map(|s| s.code()), Ok(Some(10)))
+}
+
+/// Child side of `history_fails_in_child`.  Exit code 10 = the class shows, 0 = it does not.
+pub fn exec_history(path: &std::path::Path) -> i32 {
+    let hf: HistoryFile = match std::fs::read(path).ok().and_then(|b| serde_json::from_slice(&b).ok()) {
+        Some(h) => h,
+        None => return 2,
+    };
+    let mut scratch = Stats::default();
+    for p in &hf.history {
+        let _ = execute(p, None, &mut scratch);
+    }
+    let out = execute(&hf.plan, None, &mut scratch);
+    if out.violations.iter().any(|v| v.class == hf.class) {
+        10
+    } else {
+        0
+    }
+}
+
+/// Child side of the sequential search: the whole batch on ONE thread of a fresh process, in a
+/// fixed order (enumeration values, fault-free batch, swarm batch), until `class` first shows.
+/// Writes the plans executed before it (at most `keep`) and the failing plan to `out`.
+pub fn sequential_find(
+    prop: Prop,
+    seed: u64,
+    runs: u64,
+    enum_values: &[ValueSpec],
+    class: &str,
+    keep: usize,
+    out: &std::path::Path,
+) -> i32 {
+    let mut scratch = Stats::default();
+    let mut ring: std::collections::VecDeque<Plan> = std::collections::VecDeque::new();
+    let mut hit: Option<Plan> = None;
+    let mut push = |ring: &mut std::collections::VecDeque<Plan>, p: Plan| {
+        if ring.len() == keep {
+            ring.pop_front();
+        }
+        ring.push_back(p);
+    };
+    'outer: {
+        for v in enum_values {
+            let mut found: Option<Plan> = None;
+            enumerate_value(v, &mut scratch, |_p, o| {
+                if found.is_none() {
+                    if o.violations.iter().any(|x| x.class == class) {
+                        found = Some(o.effective.clone());
+                    } else {
+                        push(&mut ring, o.effective.clone());
+                    }
+                }
+            });
+            if let Some(p) = found {
+                hit = Some(p);
+                break 'outer;
+            }
+        }
+        for (base, ff, n) in [(seed ^ 0xFF00_FF00, true, (runs / 4).max(1)), (seed, false, runs)] {
+            for i in 0..n {
+                let o = search_run(prop, base, i, ff, &mut scratch);
+                if o.violations.iter().any(|x| x.class == class) {
+                    hit = Some(o.effective);
+                    break 'outer;
+                }
+                push(&mut ring, o.effective);
+            }
+        }
+    }
+    match hit {
+        None => 0,
+        Some(plan) => {
+            let hf = HistoryFile { class: class.to_string(), history: ring.into_iter().collect(), plan };
+            if std::fs::write(out, serde_json::to_vec(&hf).unwrap()).is_err() {
+                return 2;
+            }
+            10
+        }
+    }
+}
+
+/// Last resort of `reproduce`: find the class again in a single-threaded fresh process and
+/// minimise the history with one fresh process per attempt.
+pub fn reproduce_in_processes(prop: Prop, seed: u64, runs: u64, enum_extra: usize, class: &str) -> Option<Repro> {
+    let exe = std::env::current_exe().ok()?;
+    let out = temp_path("seq");
+    let st = std::process::Command::new(exe)
+        .arg("sequential-find")
+        .arg(prop.id())
+        .arg("--seed")
+        .arg(seed.to_string())
+        .arg("--runs")
+        .arg(runs.to_string())
+        .arg("--enum-values")
+        .arg(enum_extra.to_string())
+        .arg("--class")
+        .arg(class)
+        .arg("--replay")
+        .arg(&out)
+        .stdout(std::process::Stdio::null())
+        .stderr(std::process::Stdio::null())
+        .status()
+        .ok()?;
+    if st.code() != Some(10) {
+        let _ = std::fs::remove_file(&out);
+        return None;
+    }
+    let hf: HistoryFile = serde_json::from_slice(&std::fs::read(&out).ok()?).ok()?;
+    let _ = std::fs::remove_file(&out);
+    let mut prior = hf.history;
+    let plan = hf.plan;
+    let mut attempts = 1u64;
+    if !history_fails_in_child(&prior, &plan, class) {
+        return None;
+    }
+    if history_fails_in_child(&[], &plan, class) {
+        prior.clear();
+    }
+    let mut k = 1usize;
+    while k < prior.len() {
+        attempts += 1;
+        if history_fails_in_child(&prior[prior.len() - k..], &plan, class) {
+            prior = prior[prior.len() - k..].to_vec();
+            break;
+        }
+        k *= 2;
+    }
+    let mut i = prior.len();
+    let mut budget = 200;
+    while i > 0 && budget > 0 {
+        i -= 1;
+        budget -= 1;
+        let mut cand = prior.clone();
+        cand.remove(i);
+        attempts += 1;
+        if history_fails_in_child(&cand, &plan, class) {
+            prior = cand;
+        }
+    }
+    Some(Repro {
+        history: prior,
+        plan,
+        reproducible: true,
+        attempts,
+        note: "does not replay on a fresh thread of the same process: the code under test keeps state shared between threads. Found again by running the whole batch on one thread of a fresh process; the listed earlier runs, executed in a fresh process, reproduce it".into(),
+    })
+}
+
